@@ -942,6 +942,7 @@ def rule_tls_api(ctx):
 MUTATORS_INPLACE = ('update', 'append', 'extend', 'insert', 'pop', 'popitem', 'clear', 'remove',
                     'add', 'discard', 'setdefault', 'sort', 'reverse')
 COPIERS = ('dict', 'list', 'set', 'tuple', 'frozenset', 'copy.copy', 'copy.deepcopy')
+DEEP_INPLACE = ('merge_tree',)
 SCOPE_READS = ('thread_local_get', 'thread_local_peek', 'thread_local_kwargs', 'getattr',
                'get_scoped_value', 'get')
 
@@ -1021,6 +1022,22 @@ def rule_g(ctx, gens):
       inv = INVERSE.get(kind, ())
       if not any(n2 == nm and k2 in inv and l2 > first_yield for n2, k2, _, l2 in muts):
         bad.append(f'`{text}` (line {line})')
+    # a SHALLOW copy of the enclosing value handed to an in-place deep merge still
+    # writes into the nested containers of the enclosing scope
+    for node in ast.walk(fn):
+      if isinstance(node, ast.Call) and (A.call_name(node) or '').split('.')[-1] in DEEP_INPLACE and node.args:
+        dest = node.args[0]
+        def shallow_of_outer(e):
+          if isinstance(e, ast.Name):
+            if e.id in outer:
+              return True
+            return any(v is not None and shallow_of_outer(v) for _, v in D.defs_of(fn, e.id))
+          if isinstance(e, ast.Call) and ((A.call_name(e) or '') in ('dict', 'list', 'copy.copy') or
+                                          (A.call_name(e) or '').endswith('.copy')):
+            return any(isinstance(x, ast.Name) and x.id in outer for x in ast.walk(e))
+          return False
+        if shallow_of_outer(dest):
+          bad.append(f'`{A.unparse(node, 70)}` (line {node.lineno}) merges in place into a shallow copy')
     n += 1
     ctx.ob('C17.g', f.fq, not bad,
            "the enclosing scope's value is never modified in place: the inner scope works on a copy",
